@@ -348,9 +348,18 @@ def check_multi(case):
             exp[repr(gv(c, r))] += k
         if got != exp:
             bad(op, 'value-multiset', 'values %r expected %r' % (sorted(got.elements()), sorted(exp.elements())))
+    def snap(x):
+        return (area_names(x), sorted(map(str, x.values)), repr(sut.matrix(x.value)))
     # union keeps every area in order, values once per covering area
     ra, rb = build(case['a'], sa), build(case['b'], sb)
+    s0 = (snap(ra), snap(rb))
+
+    def unchanged(op):
+        # an operator returns a new reference: its operands still denote what they denoted (they are used again by callers)
+        if (snap(ra), snap(rb)) != s0:
+            bad(op, 'operand-changed', 'operands were %r, now %r' % (s0, (snap(ra), snap(rb))))
     U = ra | rb
+    unchanged('or')
     expn = [(sa.upper() + '!' if sa else '') + name(tuple(r)) for r in case['a']] + \
            [(sb.upper() + '!' if sb else '') + name(tuple(r)) for r in case['b']]
     if area_names(U) != expn:
@@ -368,8 +377,27 @@ def check_multi(case):
             bad('and', 'null', 'value %r' % sut.matrix(I.value))
     else:
         values_match(I, 'and')
+    unchanged('and')
+    if sa == sb:
+        # a reference assembled step by step and looked at in between: areas wholly covered by values pushed earlier come
+        # without a value of their own
+        inc, have = sut.Ranges(), set()
+        for r in case['a'] + case['b']:
+            cs = set(rect_cells(tuple(r), sa))
+            nm_ = (sa + '!' if sa else '') + name(tuple(r))
+            if cs <= have:
+                inc.push(nm_)
+            else:
+                inc.push(nm_, sut.np.asarray([[sut.to_repo(v) for v in row] for row in val_of(tuple(r), N, grid)], object))
+                have |= cs
+            inc.value  # noqa  (the look in between)
+        if area_names(inc) != expn:
+            bad('push', 'areas', 'areas %s expected %s' % (area_names(inc), expn))
+        else:
+            values_match(inc, 'push')
     # difference: exactly the cells of a that are not in b
     D = build(case['a'], sa) - build(case['b'], sb, values=False)
+    unchanged('sub')
     cd = area_multiset(D)
     want = {(s.upper(), c, r) for s, c, r in set(A) - set(B)}
     if set(cd) != want:
